@@ -158,8 +158,8 @@ class Ctx(object):
             wall_s=round(time.time() - self.t0, 3), cpu_s=round(time.process_time() - self.c0, 3))
 
 
-def dump_result(ctx, path):
+def dump_result(ctx, path, reach=None):
     with open(path + ".tmp", "w") as f:
-        json.dump(ctx.result(), f)
+        json.dump(dict(ctx.result(), reach=reach), f)
     import os
     os.replace(path + ".tmp", path)
